@@ -65,6 +65,10 @@ pub struct Keys {
     /// when (harness clock) each key id was first revoked anywhere
     pub revoked_at: std::collections::BTreeMap<String, u64>,
     pub rotations: usize,
+    /// replica r has changed the key set since it last supplied the other replica
+    pub unsent: [bool; 2],
+    /// both replicas changed the key set without having seen each other's change (sticky)
+    pub concurrent_changes: bool,
     pub tainted: bool,
     pub last_repl_ok: bool,
 }
@@ -93,7 +97,7 @@ impl Keys {
     pub fn new(cfg: Cfg) -> Keys {
         let a = Idm::new();
         let b = Idm::new();
-        let mut w = Keys { idm: [a, b], now: 100, cfg, arts: Vec::new(), knows_revoked: [BTreeSet::new(), BTreeSet::new()], revoked_at: Default::default(), rotations: 0, tainted: false, last_repl_ok: false };
+        let mut w = Keys { idm: [a, b], now: 100, cfg, arts: Vec::new(), knows_revoked: [BTreeSet::new(), BTreeSet::new()], revoked_at: Default::default(), rotations: 0, unsent: [false; 2], concurrent_changes: false, tainted: false, last_repl_ok: false };
         // the account, on replica 0; replica 1 then joins replica 0's domain by a refresh
         let r = w.idm[0].create(srv::t(10), person_entry("alice", person_uuid(0))).and_then(|_| w.idm[0].set_primary(srv::t(11), person_uuid(0), PW_GOOD, false).map(|_| ()));
         if let Err(e) = r {
@@ -142,6 +146,7 @@ impl Keys {
                 if self.last_repl_ok {
                     let k = self.knows_revoked[from].clone();
                     self.knows_revoked[to].extend(k);
+                    self.unsent[from] = false;
                 }
                 format!("ok:{s}")
             }
@@ -165,7 +170,7 @@ impl Keys {
             parts.push(format!("knows{r}={:?}", self.knows_revoked[r]));
         }
         parts.push(format!("arts={:?}", self.arts.iter().map(|a| format!("{}@{}:{}", &a.kid[..a.kid.len().min(8)], a.issued_on, self.now - a.issued_at)).collect::<Vec<_>>()));
-        parts.push(format!("rot={}", self.rotations));
+        parts.push(format!("rot={} unsent={:?} conc={}", self.rotations, self.unsent, self.concurrent_changes));
         parts.push(format!("revoked_ago={:?}", self.revoked_at.iter().map(|(k, t)| (k[..k.len().min(8)].to_string(), self.now - t)).collect::<Vec<_>>()));
         // pending replication: the change state of the domain object decides what the next exchange carries
         for r in 0..2 {
@@ -232,6 +237,10 @@ impl World for Keys {
                 let res = self.idm[*r].write(ct, |w| w.qs_write.internal_modify_uuid(UUID_DOMAIN_INFO, &ModifyList::new_append(Attribute::KeyActionRotate, Value::new_datetime_epoch(at))));
                 if res.is_ok() {
                     self.rotations += 1;
+                    self.unsent[*r] = true;
+                    if self.unsent[1 - *r] {
+                        self.concurrent_changes = true;
+                    }
                 }
                 opstr(&res)
             }
@@ -243,6 +252,10 @@ impl World for Keys {
                         if res.is_ok() {
                             self.knows_revoked[*r].insert(kid.clone());
                             self.revoked_at.entry(kid.clone()).or_insert(self.now);
+                            self.unsent[*r] = true;
+                            if self.unsent[1 - *r] {
+                                self.concurrent_changes = true;
+                            }
                         }
                         opstr(&res)
                     }
@@ -260,46 +273,23 @@ impl World for Keys {
             }
         };
         self.now += 1;
+        if std::env::var("KV_DEBUG").is_ok() {
+            for r in 0..2 {
+                eprintln!("after {op:?} -> {res}: replica {r} keys {:?}", stored_keys(&self.idm[r]).iter().map(|(k, st, us, vf)| format!("{}:{st}:{us}:{}", &k[..6], vf.saturating_sub(srv::T0))).collect::<Vec<_>>());
+            }
+        }
         res
     }
 
     fn check(&mut self, last: Option<(&Op, &str)>) -> Vec<(String, String)> {
-        let mut out = Vec::new();
-        if let Some((Op::Login(r), res)) = last {
-            if let Some(rest) = res.strip_prefix("ok:SIGNER ") {
-                out.push(("signed_with_wrong_key".into(), format!("the login token issued on replica {r} is signed with key {rest} (newest valid, started, non-revoked key of the stored key set)")));
-            }
-        }
-        for a in &self.arts {
-            for r in 0..2 {
-                let acc = Self::accepted(&self.idm[r], &a.token, self.now);
-                if acc && self.knows_revoked[r].contains(&a.kid) {
-                    out.push((format!("revoked_key_accepted:{}", if r == a.issued_on { "issuing_replica" } else { "other_replica" }), format!("replica {r} accepts a token signed with key {}, whose revocation it has {}", a.kid, if r == a.issued_on { "performed or received" } else { "received or performed" })));
-                }
-            }
-            // rotation never invalidates: on the issuing replica a token of a key nobody revoked
-            // is accepted while its session is young
-            let revoked_anywhere = self.knows_revoked.iter().any(|k| k.contains(&a.kid));
-            let r = a.issued_on;
-            if !revoked_anywhere && self.now - a.issued_at < 3000 && !Self::accepted(&self.idm[r], &a.token, self.now) {
-                out.push(("unrevoked_key_rejected".into(), format!("replica {r} rejects its own token signed with key {}, which nobody revoked, {} s after issuing it", a.kid, self.now - a.issued_at)));
-            }
-        }
-        // a revocation a replica knows is in its stored key set (or the key is gone altogether)
-        for r in 0..2 {
-            let keys = stored_keys(&self.idm[r]);
-            for kid in &self.knows_revoked[r] {
-                match keys.iter().find(|(k, _, _, _)| k == kid) {
-                    Some((_, st, _, _)) if st != "revoked" => out.push(("revocation_lost:status".into(), format!("replica {r} performed or received the revocation of key {kid}, but its stored key set says `{st}`"))),
-                    Some(_) => {}
-                    None => {
-                        // the record of a revocation may only be dropped once the revocation
-                        // itself is older than the changelog window
-                        let age = self.now - self.revoked_at.get(kid).copied().unwrap_or(self.now);
-                        if age <= CHANGELOG_MAX_AGE {
-                            out.push(("revocation_lost:record_dropped_early".into(), format!("replica {r} performed or received the revocation of key {kid} {age} s ago (changelog window {CHANGELOG_MAX_AGE} s), but its stored key set no longer has any record of the key")));
-                        }
-                    }
+        let mut out = self.check_inner(last);
+        if self.concurrent_changes {
+            // the history contains key changes made on both replicas before either had seen the
+            // other's: name that in the key (it is the precondition of one known defect)
+            for (k, w) in out.iter_mut() {
+                if !k.starts_with("machinery:") {
+                    k.push_str(":after_concurrent_key_changes_on_both_replicas");
+                    w.push_str(" [both replicas had changed the key set before they exchanged changes]");
                 }
             }
         }
@@ -355,5 +345,53 @@ impl World for Keys {
         let mut h = Fnv::new();
         h.write_str(&self.canon_string());
         h.finish()
+    }
+}
+
+impl Keys {
+    fn check_inner(&mut self, last: Option<(&Op, &str)>) -> Vec<(String, String)> {
+        let mut out = Vec::new();
+        if let Some((Op::Login(r), res)) = last {
+            if let Some(rest) = res.strip_prefix("ok:SIGNER ") {
+                out.push(("signed_with_wrong_key".into(), format!("the login token issued on replica {r} is signed with key {rest} (newest valid, started, non-revoked key of the stored key set)")));
+            }
+        }
+        for a in &self.arts {
+            for r in 0..2 {
+                let acc = Self::accepted(&self.idm[r], &a.token, self.now);
+                if acc && self.knows_revoked[r].contains(&a.kid) {
+                    out.push((format!("revoked_key_accepted:{}", if r == a.issued_on { "issuing_replica" } else { "other_replica" }), format!("replica {r} accepts a token signed with key {}, whose revocation it has {}", a.kid, if r == a.issued_on { "performed or received" } else { "received or performed" })));
+                }
+            }
+            // rotation never invalidates: on the issuing replica a token of a key nobody revoked
+            // is accepted while its session is young
+            let revoked_anywhere = self.knows_revoked.iter().any(|k| k.contains(&a.kid));
+            let r = a.issued_on;
+            if !revoked_anywhere && self.now - a.issued_at < 3000 && !Self::accepted(&self.idm[r], &a.token, self.now) {
+                out.push(("unrevoked_key_rejected".into(), format!("replica {r} rejects its own token signed with key {}, which nobody revoked, {} s after issuing it", a.kid, self.now - a.issued_at)));
+            }
+        }
+        // a revocation a replica knows is in its stored key set (or the key is gone altogether)
+        for r in 0..2 {
+            let keys = stored_keys(&self.idm[r]);
+            for kid in &self.knows_revoked[r] {
+                match keys.iter().find(|(k, _, _, _)| k == kid) {
+                    Some((_, st, _, _)) if st != "revoked" => out.push(("revocation_lost:status".into(), format!("replica {r} performed or received the revocation of key {kid}, but its stored key set says `{st}`"))),
+                    Some(_) => {}
+                    None => {
+                        // the record of a revocation may only be dropped once the revocation
+                        // itself is older than the changelog window
+                        let age = self.now - self.revoked_at.get(kid).copied().unwrap_or(self.now);
+                        if age <= CHANGELOG_MAX_AGE {
+                            out.push(("revocation_lost:record_dropped_early".into(), format!("replica {r} performed or received the revocation of key {kid} {age} s ago (changelog window {CHANGELOG_MAX_AGE} s), but its stored key set no longer has any record of the key")));
+                        }
+                    }
+                }
+            }
+        }
+        if !out.is_empty() {
+            self.tainted = true;
+        }
+        out
     }
 }
